@@ -286,10 +286,16 @@ def main(argv=None):
         print("NOTE: known finding no longer reproduces (stale entry): %s %s" % (k.get("label"), k.get("what", "")))
     rc = 0
     replay_paths = []
+    open_native_kf = any(k["property"] == prop and k.get("status", "open") == "open" for k in known) and prop in native.FAMILIES
     for f, r in violations:
         extra = None
         try:
-            extra = native.search_counterexample(prop, f, r, REPO, VERIF, BUILD)
+            if open_native_kf:
+                # the family of this property fails on its listed known finding by design: its history must not be passed off
+                # as the failing input of a different obligation
+                extra = dict(counterexample=None, counterexample_search="not searched: the scenario family of this property reproduces its listed known finding and cannot tell a new failure from it")
+            else:
+                extra = native.search_counterexample(prop, f, r, REPO, VERIF, BUILD)
         except Exception as e:  # replay search must never turn into an alarm by itself
             extra = dict(counterexample=None, counterexample_search_error=str(e))
         p = write_replay(prop, f, r, extra)
@@ -326,8 +332,23 @@ def main(argv=None):
         except Exception as e:
             extra = dict(counterexample=None, counterexample_search="native family could not run: %s" % e)
         if extra.get("counterexample"):
-            print("native: known finding reproduced: %s" % (extra["counterexample"].get("failure", "")[:160]))
-            native_note = "known finding reproduced natively: " + (extra.get("counterexample_search") or "")
+            # a family that reports every failing scenario lets a NEW failure be told from the listed one: the finding names the
+            # scenarios it covers (native_scenario_regex); anything else the family finds is a violation
+            rx = k0.get("native_scenario_regex")
+            listed = [c for c in extra.get("all_found", [extra["counterexample"]]) if not rx or re.search(rx, c.get("scenario", ""))]
+            other = [c for c in extra.get("all_found", []) if rx and not re.search(rx, c.get("scenario", ""))]
+            if listed:
+                print("native: known finding reproduced: %s" % (listed[0].get("failure", "")[:160]))
+                native_note = "known finding reproduced natively: " + (extra.get("counterexample_search") or "")
+            else:
+                undecided.append("known finding of %s did not reproduce natively (stale entry?)" % prop)
+            for c in other[:3]:
+                synthetic = dict(label=None, site="scenario family run natively (thorough tier)", fn=None, message="native history check", rendered="")
+                runit = dict(unit="native:" + prop, engine="native", path=None, cmd="tools/vx/native.py family", fns=[])
+                pth = write_replay(prop, dict(synthetic, site="native:" + c.get("scenario", "")), runit, dict(counterexample=c, counterexample_search=extra.get("counterexample_search")))
+                violations.append((synthetic, runit))
+                print("VIOLATION property=%s replay=%s obligation=history:%s" % (prop, pth, c.get("scenario")))
+                rc = 1
         else:
             undecided.append("known finding of %s did not reproduce natively (stale entry?): %s" % (prop, extra.get("counterexample_search")))
     if undecided and rc == 0:
